@@ -156,6 +156,46 @@ def drive(tier):
                     t[p] = r.choice([c for c in CHARSET if c != s[p]])
                 multi.append("".join(t))
             batch(hrp, 0, prog, multi, "multi")
+    # strings that a differently-checksummed or sloppier decoder would accept: (a) the BIP350 (Bech32m) constant instead of 1,
+    # and other constants; (b) a character outside the alphabet whose table lookup "value" (-1, 32, 0) went into a well-formed checksum
+    def polymod(values):
+        gen_ = [0x3b6a57b2, 0x26508e6d, 0x1ea119fa, 0x3d4233dd, 0x2a1462b3]
+        chk = 1
+        for v in values:
+            b = chk >> 25
+            chk = (chk & 0x1ffffff) << 5 ^ v
+            for i in range(5):
+                chk ^= gen_[i] if ((b >> i) & 1) else 0
+        return chk
+
+    def with_const(hrp, data, const):
+        ex = [ord(x) >> 5 for x in hrp] + [0] + [ord(x) & 31 for x in hrp]
+        pm = polymod(ex + list(data) + [0] * 6) ^ const
+        return [(pm >> 5 * (5 - i)) & 31 for i in range(6)]
+    for hrp in ("bc", "tb", "bcrt"):
+        for ver in (0, 1, 2, 3, 16):
+            for n in ((20, 32) if ver == 0 else (2, 20, 32, 40)):
+                prog = gen.rbytes(r, n)
+                data = [ver] + sa.convertbits(list(prog), 8, 5)
+                odd = []
+                for const in (0x2bc830a3, 0, 2, 0x3fffffff, 1 ^ 0x2bc830a3):
+                    odd.append(hrp + "1" + "".join(CHARSET[d] for d in data + with_const(hrp, data, const)))
+                for bad, val in (("b", -1), ("i", -1), ("o", -1), ("1", -1), ("_", -1), ("B", -1), ("b", 32), ("b", 0), ("-", 31)):
+                    d2 = [val] + data[1:]
+                    chk = with_const(hrp, d2, 1)
+                    odd.append(hrp + "1" + bad + "".join(CHARSET[d] for d in data[1:] + chk))
+                    j = 1 + r.randrange(len(data) - 1)                 # and at a position inside the program
+                    d3 = data[:j] + [val] + data[j + 1:]
+                    odd.append(hrp + "1" + "".join(bad if i == j else CHARSET[d] for i, d in enumerate(data)) + "".join(CHARSET[d] for d in with_const(hrp, d3, 1)))
+                batch(hrp, ver, prog, odd, "odd-checksum")
+                for t in odd[:8]:
+                    k, o = call(CBech32Data, t)
+                    bitcoin.SelectParams({"bc": "mainnet", "tb": "testnet", "bcrt": "regtest"}[hrp])
+                    k, o = call(CBech32Data, t)
+                    R.add("b32.decode", {"hrp": text(hrp), "s": text(t), "via": "CBech32Data"},
+                          {"k": "ret", "ver": o.witver, "prog": b2l(o)} if k == "ret" else
+                          ({"k": "none"} if type(o).__name__ in ("Bech32Error", "Bech32ChecksumError") else dict(exc_info(o), k="exc")))
+    bitcoin.SelectParams("mainnet")
     # the same strings through CBech32Data under a history of chain selections (expected prefix = the selected chain's)
     pool = []
     for chain, hrp in (("mainnet", "bc"), ("testnet", "tb"), ("regtest", "bcrt")):
